@@ -413,7 +413,7 @@ func (g *gen) fuzzLive() Op {
 	}
 	if r.chance(35) {
 		n := len(rq.Body)
-		rq.Hdr["Content-Range"] = []string{r.str(fmt.Sprintf("0-%d", n-1), fmt.Sprintf("0-%d", n-1), fmt.Sprintf("0-%d", n), fmt.Sprintf("1-%d", n), fmt.Sprintf("%d-%d", n, 2*n-1), "0-0", "5-", "-", "a-b", "99999999999999999999-1", "0-99999999999999999999", "1-0", "", "bytes 0-1/2")}
+		rq.Hdr["Content-Range"] = []string{r.str(fmt.Sprintf("0-%d", n-1), fmt.Sprintf("0-%d", n-1), fmt.Sprintf("0-%d", n), fmt.Sprintf("1-%d", n), fmt.Sprintf("%d-%d", n, 2*n-1), "0-0", "5-", "-", "a-b", "99999999999999999999-1", "0-99999999999999999999", "1-0", "", "bytes 0-1/2", "5", "0", "-5", "bytes", "0--1", "0-1-2", " 0-1", "0 - 1")}
 	}
 	if r.chance(15) {
 		rq.Hdr["Content-Type"] = []string{r.str("application/octet-stream", "", "text/plain", ";")}
@@ -511,7 +511,7 @@ func (g *gen) fuzzRaw() Op {
 	for i := r.intn(4); i > 0; i-- {
 		switch r.intn(8) {
 		case 0:
-			rq.Hdr["Content-Range"] = []string{r.str("0-0", "5-", "-", "a-b", "99999999999999999999-1", "0-99999999999999999999", "-5", "1-0", "", "bytes 0-1/2")}
+			rq.Hdr["Content-Range"] = []string{r.str("0-0", "5-", "-", "a-b", "99999999999999999999-1", "0-99999999999999999999", "-5", "1-0", "", "bytes 0-1/2", "5", "0", "bytes", "0--1", "0-1-2")}
 		case 1:
 			rq.Hdr["Content-Type"] = []string{r.str(mtOCIManifest, mtOCIIndex, mtDockManifest, mtDockList, "application/json", "text/plain", "", ";", "a/b;c=d", strings.Repeat("m", 300))}
 		case 2:
@@ -712,6 +712,12 @@ func planC16(prop string, seed uint64, tier string, idx int) *Plan {
 	}
 	if g.r.chance(30) {
 		k.GCFreqMs, k.GCGraceMs, k.Untagged = int64(g.r.pick(100, 2000)), int64(g.r.pick(-1, 1000, 0)), g.r.pick(0, 1)
+	}
+	if idx%6 == 3 && k.Store == "dir" {
+		// a failing mkdir, stat or create must not make the store fall back to a place outside the repository
+		g.p.Profile = "isolation + disk faults"
+		k.FaultRate = g.r.pick(20, 60, 150)
+		k.FaultKinds = [][]string{{"meta"}, {"meta"}, {"write", "meta"}, {"read", "write", "meta"}}[g.r.intn(4)]
 	}
 	nb := g.r.between(2, 4)
 	var blobs []int
